@@ -240,7 +240,10 @@ def run(sc, twin):
             raised = "exc:" + type(e).__name__ + ":" + str(e)[:100]
         recs.append({"trace": [list(t) for t in TRACE], "raised": raised, "view": view(), "exprs": len(ctor.expr_l),
                      "left": leftovers(objs)})
-    cont = continuation(ns, objs)
+    try:
+        cont = continuation(ns, objs)
+    except Exception as e:  # noqa  (e.g. a later class definition rejected because of what a failed call left behind)
+        cont = ["continuation raised " + type(e).__name__ + ": " + str(e)[:150], view() + [len(ctor.expr_l)]]
     return {"calls": recs, "continuation": cont}
 
 
